@@ -461,6 +461,9 @@ class SSHConfig:
                 if args:
                     self._error(f'Extra data at end: {" ".join(args)}')
 
+    def _expand_options(self) -> None:
+        """Perform percent and environment expansion on config options"""
+
         self._set_tokens()
 
         for option in self._percent_expand:
@@ -498,6 +501,7 @@ class SSHConfig:
             for path in paths:
                 config.parse(Path(path))
 
+            config._expand_options()
             config.loaded = True
 
         return config
